@@ -976,6 +976,19 @@ class Data(object):
         else: #pass on to superclass
             super(Data,self).__setattr__(key,value)
 
+    def __delattr__(self, key):
+        """Convert delattr to delitem on self.__dict__
+
+           need to override __delattr__ for the same reason as __setattr__ above.
+           The class's __delattr__ removes the entry from the underlying dict
+           of the odict in .__dict__ without removing it from the odict's
+           ordered keys so .__dict__.keys() and .items() are corrupted
+        """
+        if key in self.__dict__:
+            self.__dict__.__delitem__(key)
+        else: #pass on to superclass
+            super(Data,self).__delattr__(key)
+
     def __repr__(self):
         """
         Representation
